@@ -12,6 +12,7 @@ evaluation sets, any significance oracle), with row-wise policies:
 import Rl4co.Train.RolloutBl
 import Rl4co.Props.C17.Dataset
 import Rl4co.Props.C16.TrainReinforce
+import Mathlib.Algebra.Order.Field.Basic
 
 namespace Rl4co.Train.RolloutBl
 open Rl4co.Ops
@@ -107,6 +108,52 @@ theorem reinforce_rollout (n : Nat) (g : Nat → K) (R ll : Nat → Dual K) (hR 
   refine ⟨out, h, ?_, ?_⟩
   · rw [hv]; simp [Spec.Train.reinforce, ScaleOp.applyK]
   · rw [hd (fun i hi => ⟨hR i hi, rfl⟩)]; simp [Spec.Train.reinforceGrad, ScaleOp.applyK]
+
+section decision
+variable [IsStrictOrderedRing K]
+
+/-- **The decision of `epoch_callback`, stated outright**: replace ⇔ the candidate's mean reward on the evaluation set
+exceeds the stored baseline mean AND the one-sided p-value is below `bl_alpha`. -/
+theorem accepts_iff (pval : List K → List K → K) (alpha : K) (st : St Inst K) (candVals : List K) :
+    accepts pval alpha st candVals = true ↔ (st.mean < lmean candVals ∧ pval candVals st.blVals < alpha) := by
+  simp only [accepts, Bool.and_eq_true, decide_eq_true_eq, sub_pos]
+
+omit [LinearOrder K] [IsStrictOrderedRing K] in
+theorem sum_zipWith_sub (a b : List K) (h : a.length = b.length) :
+    (List.zipWith (fun x y => x - y) a b).sum = a.sum - b.sum := by
+  induction a generalizing b with
+  | nil => cases b <;> simp_all
+  | cons x xs ih =>
+    cases b with
+    | nil => simp at h
+    | cons y ys =>
+      simp only [List.zipWith_cons_cons, List.sum_cons, ih ys (by simpa using h)]
+      ring
+
+/-- the paired t statistic of the cost differences `(-candidate) - (-baseline)` as `ttest_rel` computes it:
+`mean(d) / (s_d / sqrt n)`; `sq` is the square root -/
+def tstat (sq : K → K) (bl cand : List K) : K :=
+  let d := List.zipWith (fun x y => x - y) bl cand
+  lmean d / (sq (Rl4co.Spec.Train.sampleVar d) / sq (d.length : K))
+
+/-- **`assert t < 0` never fires.**  Whenever the test is run at all (the candidate is better on average) and the
+differences are not all equal (positive standard error), the t statistic is negative — so the one-sided p-value
+`p / 2` is the probability of an improvement at least this large under the null hypothesis. -/
+theorem tstat_neg (sq : K → K) (bl cand : List K) (hlen : bl.length = cand.length) (hne : cand ≠ [])
+    (hbetter : 0 < lmean cand - lmean bl)
+    (hse : 0 < sq (Rl4co.Spec.Train.sampleVar (List.zipWith (fun x y => x - y) bl cand))
+              / sq ((List.zipWith (fun x y => x - y) bl cand).length : K)) :
+    tstat sq bl cand < 0 := by
+  have hn : 0 < (cand.length : K) := Nat.cast_pos.mpr (List.length_pos_of_ne_nil hne)
+  have hmean : lmean (List.zipWith (fun x y => x - y) bl cand) = lmean bl - lmean cand := by
+    simp only [lmean, sum_zipWith_sub bl cand hlen, List.length_zipWith, hlen, Nat.min_self]
+    field_simp
+  unfold tstat
+  simp only
+  rw [hmean]
+  exact div_neg_of_neg_of_pos (by linarith) hse
+
+end decision
 
 /-- Non-vacuity: instances are numbers, frozen policy `x ↦ -x`, candidate `x ↦ -x/2` (better), p-value oracle 0:
 the callback replaces the policy and re-evaluates on the fresh set `[4, 6]`: `bl_vals = [-2, -3]`, mean `-5/2`. -/
